@@ -23,7 +23,7 @@ def grammar():
     return _g
 
 
-def classify(text, fs=None, filename=None, allow_func=False):
+def classify(text, fs=None, filename=None, allow_func=False, convert_debatable=False):
     """Reference verdict on a script text:
     ('ok', RefProgram) | ('ood', reason) | ('ill', IllFormed) | ('nosentence', first_bad_index, tokens)
     | ('refbug', message)  - reference parser disagrees with the recogniser (machinery error)."""
@@ -35,7 +35,7 @@ def classify(text, fs=None, filename=None, allow_func=False):
     if not ok:
         return ("nosentence", bad, toks)
     try:
-        ref = refsem.run(text, g, fs=fs, filename=filename, tokens=toks, allow_func=allow_func)
+        ref = refsem.run(text, g, fs=fs, filename=filename, tokens=toks, allow_func=allow_func, convert_debatable=convert_debatable)
     except OOD as e:
         return ("ood", e.reason)
     except refsem.IllFormed as e:
